@@ -130,7 +130,8 @@ def check_frobenius(ctx, it, F):
 def check_induced(ctx, f, axis_name):
     """axis_name 'col' (1-norm) or 'row' (inf-norm)."""
     shapes = (T_SHAPES if ctx.thorough else Q_SHAPES + [(3, 2)])
-    shapes = [s for s in shapes if max(s) <= 3] + ([(1, 4)] if ctx.thorough else [])
+    # (single-row and single-column shapes included: a "vector" shortcut must still be the max column / row sum)
+    shapes = [s for s in shapes if max(s) <= 3] + [(1, 3)] + ([(1, 4)] if ctx.thorough else [])
     ctx.notes.setdefault("C15.induced_shapes", [list(s) for s in shapes])
     rule = "C15.D2.induced"
     what = "max column sum" if axis_name == "col" else "max row sum"
